@@ -43,47 +43,97 @@ Proof.
   cbn [increasing map]. intros [A B]. specialize (IH _ B). rewrite last_cons. lia.
 Qed.
 
+(* all that open() needs of the sequences: none is 0 (0 marks an empty slot).  Their ORDER in the log is arbitrary:
+   with several flushers the log is written batch by batch, not in sequence order *)
+Definition nonzero (ts : list tomb) : Prop := Forall (fun t => t_seq t <> 0) ts.
+
+Lemma increasing_nonzero lo ts : increasing lo ts -> nonzero ts.
+Proof.
+  revert lo. induction ts as [|t ts IH]; intros lo H; [constructor|]. destruct H as [A B].
+  constructor; [lia|eapply IH; eauto].
+Qed.
+
 (* the device after n appends into a fresh log: slot 0 unused, slots 1..n in order, the rest empty *)
 Definition layout (ts : list tomb) (pad : nat) : list tomb := empty_tomb :: ts ++ repeat empty_tomb pad.
 
 Lemma argmax_pad i pad bs bl : argmax_from i (repeat empty_tomb pad) bs bl = (bs, bl).
 Proof. revert i. induction pad as [|p IH]; intros i; simpl; [reflexivity|]. apply IH. Qed.
 
-Lemma argmax_increasing ts : forall i pad bs bl,
-  increasing bs ts -> ts <> [] ->
-  argmax_from i (ts ++ repeat empty_tomb pad) bs bl =
-  (last (map t_seq ts) bs, i + N.of_nat (length ts) - 1).
+(* the newest tombstone sits in one of the slots 1..n (slot 0 if there is none) *)
+Lemma argmax_range ts : forall i pad bs bl,
+  snd (argmax_from i (ts ++ repeat empty_tomb pad) bs bl) = bl \/
+  (i <= snd (argmax_from i (ts ++ repeat empty_tomb pad) bs bl) < i + N.of_nat (length ts)).
 Proof.
-  induction ts as [|t ts IH]; intros i pad bs bl Hinc Hne; [congruence|].
-  simpl in Hinc. destruct Hinc as [Hlt Hinc].
-  cbn [app argmax_from].
-  destruct (N.eqb_spec (t_seq t) 0) as [Hz|Hz]; [lia|].
-  destruct (N.leb_spec bs (t_seq t)) as [_|Hgt]; [|lia].
-  destruct ts as [|t2 ts].
-  - cbn [app]. rewrite argmax_pad. cbn [map last length]. f_equal. lia.
-  - rewrite IH; [|assumption|discriminate]. f_equal.
-    + cbn [map]. rewrite !last_cons. reflexivity.
-    + cbn [length]. rewrite !Nat2N.inj_succ. lia.
+  induction ts as [|t ts IH]; intros i pad bs bl; cbn [app].
+  - rewrite argmax_pad. left; reflexivity.
+  - cbn [argmax_from length]. rewrite Nat2N.inj_succ.
+    destruct (t_seq t =? 0).
+    + destruct (IH (i + 1) pad bs bl) as [E|E]; [left; exact E|right; lia].
+    + destruct (bs <=? t_seq t).
+      * destruct (IH (i + 1) pad (t_seq t) i) as [E|E]; [right; rewrite E; lia|right; lia].
+      * destruct (IH (i + 1) pad bs bl) as [E|E]; [left; exact E|right; lia].
 Qed.
 
-Lemma argmax_layout ts pad :
-  increasing 0 ts ->
-  argmax_from 0 (layout ts pad) 0 0 = (last (map t_seq ts) 0, N.of_nat (length ts)).
+Lemma argmax_layout_range ts pad :
+  snd (argmax_from 0 (layout ts pad) 0 0) <= N.of_nat (length ts).
 Proof.
-  intros Hinc. unfold layout. cbn [argmax_from empty_tomb t_seq]. rewrite N.eqb_refl.
-  destruct ts as [|t ts].
-  - cbn [app]. rewrite argmax_pad. reflexivity.
-  - rewrite argmax_increasing; [|assumption|discriminate]. f_equal. lia.
+  unfold layout. cbn [argmax_from empty_tomb t_seq]. rewrite N.eqb_refl. change (0 + 1) with 1.
+  destruct (argmax_range ts 1 pad 0 0) as [E|E]; lia.
 Qed.
 
-Lemma recovered_layout ts pad : increasing 0 ts -> recovered (layout ts pad) = ts.
+Lemma nth_layout_in ts pad j : (j < length ts)%nat -> nth (S j) (layout ts pad) empty_tomb = nth j ts empty_tomb.
+Proof. intros H. unfold layout. cbn [nth]. apply app_nth1. exact H. Qed.
+Lemma nth_layout_pad ts pad : nth (S (length ts)) (layout ts pad) empty_tomb = empty_tomb.
 Proof.
-  intros Hinc. unfold recovered, layout. cbn [filter empty_tomb t_seq]. rewrite N.eqb_refl. cbn [negb].
+  unfold layout. cbn [nth]. rewrite app_nth2 by lia. rewrite Nat.sub_diag. destruct pad; reflexivity.
+Qed.
+
+(* skipping from any slot p <= n stops at slot n: the slots p+1..n are occupied, the next one is empty *)
+Lemma skip_layout pages ts pad : nonzero ts ->
+  N.of_nat (length ts) + 1 <= pages * SLOTS_PER_PAGE ->
+  N.of_nat (length (layout ts pad)) = pages * SLOTS_PER_PAGE ->
+  forall k fuel p, (p + k = length ts)%nat -> (k < fuel)%nat ->
+  skip_occupied fuel (pages * SLOTS_PER_PAGE) (layout ts pad) (N.of_nat p) = Some (N.of_nat (length ts)).
+Proof.
+  intros Hnz Hcap Hlen. induction k as [|k IH]; intros fuel p Hp Hf; (destruct fuel as [|fuel]; [lia|]); cbn [skip_occupied].
+  - (* p = n: the next slot is empty (slot n+1, or slot 0 when the log is exactly full) *)
+    assert (p = length ts) by lia. subst p.
+    destruct (N.eq_dec (N.of_nat (length ts) + 1) (pages * SLOTS_PER_PAGE)) as [E|E].
+    + rewrite E, N.mod_same by lia. cbn [N.to_nat nth layout empty_tomb t_seq]. rewrite N.eqb_refl. reflexivity.
+    + rewrite N.mod_small by lia.
+      replace (N.to_nat (N.of_nat (length ts) + 1)) with (S (length ts)) by lia.
+      rewrite nth_layout_pad. cbn [empty_tomb t_seq]. rewrite N.eqb_refl. reflexivity.
+  - rewrite N.mod_small by lia.
+    replace (N.to_nat (N.of_nat p + 1)) with (S p) by lia.
+    rewrite nth_layout_in by lia.
+    assert (Hin : In (nth p ts empty_tomb) ts) by (apply nth_In; lia).
+    unfold nonzero in Hnz. rewrite Forall_forall in Hnz. specialize (Hnz _ Hin).
+    destruct (N.eqb_spec (t_seq (nth p ts empty_tomb)) 0) as [Habs|_]; [congruence|].
+    replace (N.of_nat p + 1) with (N.of_nat (S p)) by lia. apply IH; lia.
+Qed.
+
+(* open() on a log holding ts in slots 1..n, in ANY order of sequences: all of them, tail right behind the last *)
+Lemma topen_layout pages ts pad : nonzero ts ->
+  N.of_nat (length ts) + 1 <= pages * SLOTS_PER_PAGE ->
+  N.of_nat (length (layout ts pad)) = pages * SLOTS_PER_PAGE ->
+  l_tail (fst (topen false pages (layout ts pad))) = N.of_nat (length ts) + 1.
+Proof.
+  intros Hnz Hcap Hlen. unfold topen.
+  pose proof (argmax_layout_range ts pad) as Hr.
+  destruct (argmax_from 0 (layout ts pad) 0 0) as [bs latest]. cbn [snd] in Hr. cbn [fst l_tail].
+  set (p := N.to_nat latest).
+  assert (Hp : latest = N.of_nat p) by (unfold p; lia).
+  rewrite Hp. rewrite (skip_layout pages ts pad Hnz Hcap Hlen (length ts - p) (N.to_nat (pages * SLOTS_PER_PAGE)) p); [reflexivity|lia|lia].
+Qed.
+
+Lemma recovered_layout ts pad : nonzero ts -> recovered (layout ts pad) = ts.
+Proof.
+  intros Hnz. unfold recovered, layout. cbn [filter empty_tomb t_seq]. rewrite N.eqb_refl. cbn [negb].
   rewrite filter_app.
-  assert (H1 : forall lo l, increasing lo l -> filter (fun t => negb (t_seq t =? 0)) l = l).
-  { intros lo l. revert lo. induction l as [|t l IH]; intros lo; simpl; [reflexivity|].
-    intros [A B]. destruct (N.eqb_spec (t_seq t) 0); [lia|]. cbn [negb]. f_equal. eapply IH; eauto. }
-  rewrite (H1 0 ts Hinc).
+  assert (H1 : forall l, nonzero l -> filter (fun t => negb (t_seq t =? 0)) l = l).
+  { induction l as [|t l IH]; intros H; simpl; [reflexivity|]. inversion H; subst.
+    destruct (N.eqb_spec (t_seq t) 0); [congruence|]. cbn [negb]. f_equal. apply IH; assumption. }
+  rewrite (H1 ts Hnz).
   assert (H2 : filter (fun t => negb (t_seq t =? 0)) (repeat empty_tomb pad) = []).
   { induction pad as [|p IH]; simpl; [reflexivity|]. exact IH. }
   rewrite H2. apply app_nil_r.
@@ -127,41 +177,57 @@ Proof.
 Qed.
 
 (* any number of open / append sessions within the capacity: the device holds every tombstone ever
-   appended, in order, and the next open returns all of them *)
+   appended, in the order written, and the next open returns all of them *)
+Lemma layout_length ts pad : length (layout ts pad) = S (length ts + pad).
+Proof. unfold layout. cbn [length]. rewrite app_length, repeat_length. reflexivity. Qed.
+
 Lemma sessions_layout pages : forall batches ts pad,
-  increasing 0 (ts ++ concat batches) ->
+  nonzero (ts ++ concat batches) ->
   N.of_nat (length ts) + N.of_nat (length (concat batches)) + 1 <= pages * SLOTS_PER_PAGE ->
+  N.of_nat (length (layout ts pad)) = pages * SLOTS_PER_PAGE ->
   (length (concat batches) <= pad)%nat ->
   sessions false pages (layout ts pad) batches =
   layout (ts ++ concat batches) (pad - length (concat batches)).
 Proof.
-  induction batches as [|b bs IH]; intros ts pad Hinc Hcap Hpad.
+  induction batches as [|b bs IH]; intros ts pad Hnz Hcap Hlen Hpad.
   - simpl. rewrite app_nil_r, Nat.sub_0_r. reflexivity.
-  - cbn [sessions concat] in *. unfold topen.
-    assert (Hts : increasing 0 ts) by (apply increasing_app in Hinc; tauto).
-    rewrite argmax_layout by assumption.
+  - cbn [sessions concat] in *.
+    assert (Hts : nonzero ts) by (unfold nonzero in *; apply Forall_app in Hnz; tauto).
     rewrite app_length in Hcap, Hpad.
+    pose proof (topen_layout pages ts pad Hts ltac:(lia) Hlen) as Htail.
+    assert (Hopen : topen false pages (layout ts pad) =
+                    (mkTlog pages (layout ts pad) (N.of_nat (length ts) + 1), recovered (layout ts pad))).
+    { revert Htail. unfold topen. destruct (argmax_from 0 (layout ts pad) 0 0) as [bs0 latest]. cbn [fst l_tail].
+      intros E. rewrite E. reflexivity. }
+    rewrite Hopen.
     rewrite tappend_layout; [|lia|lia]. cbn [l_slots].
     rewrite IH.
     + rewrite <- app_assoc. rewrite (app_length b (concat bs)). f_equal. lia.
     + rewrite <- app_assoc. assumption.
     + rewrite app_length. lia.
+    + rewrite layout_length in *. rewrite app_length. rewrite <- Hlen. lia.
     + lia.
 Qed.
 
 Theorem all_tombstones_survive pages batches :
-  increasing 0 (concat batches) ->
+  nonzero (concat batches) ->
   N.of_nat (length (concat batches)) + 1 <= pages * SLOTS_PER_PAGE ->
   let dev := sessions false pages (fresh_device pages) batches in
   snd (topen false pages dev) = concat batches /\
   l_tail (fst (topen false pages dev)) = N.of_nat (length (concat batches)) + 1.
 Proof.
-  intros Hinc Hcap.
+  intros Hnz Hcap.
   set (cap := N.to_nat (pages * SLOTS_PER_PAGE)).
   assert (Hfresh : fresh_device pages = layout [] (cap - 1)).
   { unfold fresh_device, layout. fold cap. destruct cap as [|c] eqn:E; [lia|]. cbn [repeat app]. f_equal. f_equal. lia. }
+  assert (Hlen0 : N.of_nat (length (layout [] (cap - 1))) = pages * SLOTS_PER_PAGE).
+  { rewrite layout_length. cbn [length]. unfold cap. lia. }
   cbv zeta. rewrite Hfresh.
-  rewrite sessions_layout; [| assumption | cbn [length]; lia | lia ].
-  cbn [app]. unfold topen. rewrite argmax_layout by assumption. cbn [fst snd l_tail].
-  split; [apply recovered_layout; assumption|reflexivity].
+  rewrite sessions_layout; [| assumption | cbn [length]; lia | exact Hlen0 | unfold cap; lia ].
+  cbn [app].
+  assert (Hlen1 : N.of_nat (length (layout (concat batches) (cap - 1 - length (concat batches)))) = pages * SLOTS_PER_PAGE).
+  { rewrite layout_length. unfold cap. lia. }
+  split.
+  - unfold topen. destruct (argmax_from 0 _ 0 0). cbn [snd]. apply recovered_layout; assumption.
+  - apply topen_layout; assumption.
 Qed.
